@@ -18,14 +18,14 @@ demo() {
   testrs=$(ls seed/demo/*.rs 2>/dev/null | grep -v 'main.rs$' | head -1)
   if [ -n "$mainrs" ] && [ -z "$testrs" ]; then
     cp $mainrs $work/demo_crate/src/main.rs
-    (cd $work/demo_crate && timeout 900 cargo run --offline -j $J --target-dir $work/target > $work/demo.out 2>&1; echo "rc=$?")
+    (cd $work/demo_crate && timeout 900 cargo run $DEMO_FLAGS --offline -j $J --target-dir $work/target > $work/demo.out 2>&1; echo "rc=$?")
   elif [ -n "$testrs" ]; then
     n=$(basename $testrs .rs)
     c=$(grep -ohE '[a-z-]+/tests' seed/demo/RUN.md | head -1 | cut -d/ -f1)
     [ -d "$c" ] || c=$(echo $crates | awk '{print $NF}')
     had=0; [ -d $c/tests ] && had=1
     mkdir -p $c/tests; cp $testrs $c/tests/
-    (cd $c && timeout 1500 cargo test --offline -j $J --test $n --target-dir $work/target > $work/demo.out 2>&1; echo "rc=$?")
+    (cd $c && timeout 1500 cargo test $DEMO_FLAGS --offline -j $J --test $n --target-dir $work/target > $work/demo.out 2>&1; echo "rc=$?")
     rm -f $c/tests/$n.rs
     [ $had = 0 ] && rmdir $c/tests 2>/dev/null
   else
